@@ -65,6 +65,9 @@ func main() {
 			pad, _ = strconv.Atoi(next())
 		case "-head":
 			head, _ = strconv.Atoi(next())
+		case "-say":
+			k, _ := strconv.Atoi(next())
+			fmt.Print(strings.Repeat("#", k))
 		case "-barrier", "-bgroup":
 			next()
 		default:
